@@ -44,7 +44,7 @@ sys.path.insert(0, os.path.dirname(os.path.dirname(os.path.abspath(__file__))))
 from vlib import core, tla, tlc  # noqa: E402
 
 INVARIANTS = ["TypeOK", "ClustersPartition", "LabelsPartition", "CapRespected", "SplitChildrenOK",
-              "NeverSplitSmall", "AcceptedAboveThreshold", "PredictInRange", "OneSplitPerIteration"]
+              "NeverSplitSmall", "AcceptedAboveThreshold", "PredictInRange", "OneSplitPerIteration", "OracleIsFunction"]
 
 CFG = """INIT Init
 NEXT Next
@@ -53,6 +53,7 @@ CONSTANTS
   MinPtsSet = {mp}
   MaxIterSet = {mi}
   R = {R}
+  LowKinds = {low}
   Variant = "{variant}"
 """ + "".join(f"INVARIANT {i}\n" for i in INVARIANTS) + "CHECK_DEADLOCK FALSE\n"
 
@@ -63,24 +64,31 @@ SPEC_MUTANTS = {
     "Mut_NoSizeGuard": {"NeverSplitSmall"},
     "Mut_GeThreshold": {"AcceptedAboveThreshold"},
     "Mut_LabelFromOne": {"LabelsPartition"},
+    "Mut_ForgetfulOracle": {"OracleIsFunction"},     # needs a third pass: a cluster is consulted again
 }
-MUT_CONSTS = dict(ns="{1, 3, 4}", mp="{1, 2}", mi="{1, 2}", R=1)
+ALL_LOW = '{"nan", "neginf", "thr"}'
+MUT_CONSTS = dict(ns="{1, 3, 4}", mp="{1, 2}", mi="{1, 2, 3}", R=1, low=ALL_LOW)
 
 
 def spec_jobs(tier):
     """(name, constants) of the exhaustive generator runs."""
     jobs = [
-        ("small-family", dict(ns="{1, 2, 3, 4}", mp="{1, 2, 3}", mi="{0, 1, 2}", R=2)),
-        ("n5", dict(ns="{5}", mp="{2}", mi="{2}", R=2)),
+        ("small-family", dict(ns="{1, 2, 3, 4}", mp="{1, 2, 3}", mi="{0, 1, 2}", R=2, low=ALL_LOW)),
+        ("n5", dict(ns="{5}", mp="{2}", mi="{2}", R=2, low=ALL_LOW)),
+        # four passes over four points: clusters are consulted again in later passes (a remembering implementation answers from
+        # memory, a re-evaluating one asks again), two clusters qualify in one pass and the lower-positioned one wins
+        ("n4-deep", dict(ns="{4}", mp="{1}", mi="{4}", R=1, low='{"thr"}')),
     ]
     if tier == "thorough":
         jobs += [
-            ("n3-deep", dict(ns="{3}", mp="{1}", mi="{3}", R=1)),
-            ("n5-r3", dict(ns="{5}", mp="{2}", mi="{1, 2}", R=3)),
-            ("n6", dict(ns="{6}", mp="{2, 3}", mi="{1, 2}", R=2)),
-            ("n7", dict(ns="{7}", mp="{3}", mi="{2}", R=2)),
-            ("n8", dict(ns="{8}", mp="{4}", mi="{2}", R=1)),
-            ("n8-one", dict(ns="{8}", mp="{2, 3}", mi="{1}", R=2)),
+            ("n3-deep", dict(ns="{3}", mp="{1}", mi="{3}", R=1, low=ALL_LOW)),
+            ("n4-deep-all", dict(ns="{4}", mp="{1}", mi="{3, 4}", R=1, low=ALL_LOW)),
+            ("n6-deep", dict(ns="{6}", mp="{2}", mi="{3}", R=1, low='{"thr"}')),
+            ("n5-r3", dict(ns="{5}", mp="{2}", mi="{1, 2}", R=3, low=ALL_LOW)),
+            ("n6", dict(ns="{6}", mp="{2, 3}", mi="{1, 2}", R=2, low=ALL_LOW)),
+            ("n7", dict(ns="{7}", mp="{3}", mi="{2}", R=2, low=ALL_LOW)),
+            ("n8", dict(ns="{8}", mp="{4}", mi="{2}", R=1, low=ALL_LOW)),
+            ("n8-one", dict(ns="{8}", mp="{2, 3}", mi="{1}", R=2, low=ALL_LOW)),
         ]
     return jobs
 
@@ -112,46 +120,33 @@ def block_pc(block):
 
 
 # --------------------------------------------------------------------------- binding B: scripted fake
-class ReplayMismatch(Exception):
-    pass
-
-
 class Script:
-    """One spec behaviour (the oracle log of a terminal state) driving the fake mixture model."""
+    """One spec behaviour driving the fake mixture model.  CONTENT-ADDRESSED and order-free: the oracle of the behaviour
+    (the `oracle` variable of its terminal state) is a function of the cluster = set of point ids; any call is served, in any
+    order, any number of times, on any instance.  Nothing is asserted about the protocol (which models are fitted, which get
+    bic() / predict(), how often, in which order) - only what fit() finally DECIDED is compared with the specification.
+    A cluster the specification never consulted gets an adversarial default answer (a conforming implementation may ask
+    for it, but its decisions cannot depend on it: the specification's do not)."""
 
-    def __init__(self, np, log, n, d, ctype, variant):
+    def __init__(self, np, oracle, n, d, ctype, variant):
         self.np = np
-        self.log = log
+        self.oracle = oracle      # frozenset(ids) -> {"imp", "thr", "known", "c1"}
         self.n = n
         self.d = d
         self.ctype = ctype
         self.variant = variant
-        self.pos = 0            # next log entry to be consumed by a parent bic() call
-        self.cur = None         # entry under evaluation
-        self.cur_pred = False   # predict called for the entry under evaluation
-        self.final_fits = []    # ids of 1-component fits that never had bic() called
-        self.pending = None     # the last 1-component instance fitted (parent or final: unknown until bic)
         self.hgm = None
-        self.gt_per_iter = {}
-        for e in log:
-            if e["imp"] >= 2:
-                self.gt_per_iter[e["it"]] = self.gt_per_iter.get(e["it"], 0) + 1
+        self.cov_variant = "good"
+        self.calls = {"fit1": 0, "fit2": 0, "bic1": 0, "bic2": 0, "predict2": 0, "unconsulted_bic": 0, "unconsulted_predict": 0}
+        # iterations are not part of the oracle any more: "the only candidate above the threshold" is judged over the whole behaviour
+        self.n_gt = sum(1 for e in oracle.values() if e["imp"] >= 2)
 
-    def close_entry(self):
-        if self.cur is not None and self.cur["asked"] != self.cur_pred:
-            raise ReplayMismatch(
-                f"evaluation #{self.pos} (iteration {self.cur['it']}, cluster position {self.cur['pos'] - 1}): "
-                f"child predict called={self.cur_pred}, spec says asked={self.cur['asked']}")
-        self.cur = None
-        self.cur_pred = False
-
-    def flush_pending(self):
-        if self.pending is not None:
-            self.final_fits.append(self.pending.ids)
-            self.pending = None
-
-    def imp_value(self, e, thr):
+    def imp_value(self, ids, thr):
         np = self.np
+        e = self.oracle.get(frozenset(ids))
+        if e is None:     # never consulted by the specification: a large improvement (3 of 4 variants) or exactly the threshold
+            self.calls["unconsulted_bic"] += 1
+            return thr if self.variant % 4 == 3 else 1.0e6 + 50.0
         r = e["imp"]
         if r == -1:
             return float("nan")
@@ -159,9 +154,19 @@ class Script:
             return [-math.inf, thr - 1.0, float(np.nextafter(thr, -np.inf))][self.variant % 3]
         if r == 1:  # exactly the threshold: `>` must reject
             return thr
-        if self.variant % 2 == 1 and self.gt_per_iter.get(e["it"], 0) == 1:
+        if self.variant % 2 == 1 and self.n_gt == 1:
             return float(np.nextafter(thr, np.inf))  # single qualifying candidate: just above threshold
         return 1.0e6 + r
+
+    def partition(self, ids):
+        e = self.oracle.get(frozenset(ids))
+        if e is None or not e["known"]:   # never requested by the specification: a balanced partition (the most acceptable one)
+            self.calls["unconsulted_predict"] += 1
+            srt = sorted(ids)
+            c1 = set(srt[: len(srt) // 2])
+        else:
+            c1 = e["c1"]
+        return self.np.array([0 if i in c1 else 1 for i in ids], dtype=int)
 
 
 def make_fake(script):
@@ -172,81 +177,89 @@ def make_fake(script):
                      reg_covar=1e-6, random_state=None):
             self.n_components = n_components
             self.covariance_type = covariance_type
+            self.max_iter, self.n_init, self.tol, self.reg_covar, self.random_state = max_iter, n_init, tol, reg_covar, random_state
             self.ids = None
             self.weights_ = None
             self.means_ = None
             self.covariances_ = None
-            self.is_parent = False
+            self.n_iter_ = 1
+            self.converged_ = True
+            self.lower_bound_ = 0.0
 
         def fit(self, X, sample_weight=None):
             s = script
+            X = np.asarray(X, dtype=float)
+            if sample_weight is None:
+                raise RuntimeError("scripted replay: the fake mixture needs the sample weights (they carry the point ids)")
             ids = tuple(int(round(float(w))) for w in sample_weight)
             if len(ids) != X.shape[0]:
-                raise ReplayMismatch("fit: data and weights differ in length")
+                raise RuntimeError("scripted replay: data and weights differ in length")
             self.ids = ids
             d = X.shape[1]
-            if self.n_components == 1:
-                s.flush_pending()
-                s.pending = self
-                self.weights_ = np.ones(1)
-                self.means_ = X[:1].copy()  # centre of a cluster := its lowest-numbered point
-                cv = s.cov_variant
-                if cv == "good":
-                    full = np.eye(d) * 1e-4
-                elif cv == "nan":
-                    full = np.full((d, d), np.nan)
-                elif cv == "negdef":
-                    full = -np.eye(d)
-                else:
-                    full = np.zeros((d, d))
-                self.covariances_ = full[None, :, :] if self.covariance_type == "full" else np.diag(full)[None, :].copy()
+            k = self.n_components
+            s.calls["fit1" if k == 1 else "fit2"] += 1
+            cv = s.cov_variant
+            if cv == "good":
+                full = np.eye(d) * 1e-4
+            elif cv == "nan":
+                full = np.full((d, d), np.nan)
+            elif cv == "negdef":
+                full = -np.eye(d)
             else:
-                if s.cur is None or s.pending is not None:
-                    raise ReplayMismatch("two-component fit without a preceding parent bic()")
-                if frozenset(ids) != s.cur["ids"]:
-                    raise ReplayMismatch(f"child model fitted on {sorted(ids)}, spec evaluates {sorted(s.cur['ids'])}")
-                self.weights_ = np.array([0.5, 0.5])
-                self.means_ = np.vstack([X[:1], X[-1:]])
-                self.covariances_ = np.stack([np.eye(d)] * 2)
+                full = np.zeros((d, d))
+            if k == 1:
+                self.weights_ = np.ones(1)
+                self.means_ = X[:1].copy()  # centre of a cluster := its first (lowest-numbered) point
+            else:
+                self.weights_ = np.full(k, 1.0 / k)
+                self.means_ = np.vstack([X[:1]] * (k - 1) + [X[-1:]])
+            covs = np.stack([full] * k)
+            self.covariances_ = covs if self.covariance_type == "full" else np.stack([np.diag(full).copy()] * k)
             return self
 
         def bic(self, X):
             s = script
             if self.n_components == 1:
-                if s.pending is not self:
-                    raise ReplayMismatch("bic() on a model that was not the last one fitted")
-                s.pending = None
-                s.close_entry()
-                if s.pos >= len(s.log):
-                    raise ReplayMismatch(
-                        f"code evaluates a candidate (points {sorted(self.ids)}) after the spec's {len(s.log)} evaluations")
-                e = s.log[s.pos]
-                s.pos += 1
-                if frozenset(self.ids) != e["ids"]:
-                    raise ReplayMismatch(
-                        f"evaluation #{s.pos}: code evaluates points {sorted(self.ids)}, spec evaluates {sorted(e['ids'])}")
-                s.cur = e
+                s.calls["bic1"] += 1
                 w = np.array(self.ids, dtype=float)
-                thr = s.hgm.threshold_modifier * s.hgm._compute_bic_tolerance(X.shape[1], w)
-                self.thr = thr
-                return s.imp_value(e, thr)
+                thr = s.hgm.threshold_modifier * s.hgm._compute_bic_tolerance(np.asarray(X).shape[1], w)
+                return s.imp_value(self.ids, thr)
+            s.calls["bic2"] += 1
             return 0.0  # improvement = parent_bic - 0.0 = parent_bic exactly
 
         def predict(self, X):
             s = script
-            if self.n_components != 2 or s.cur is None or frozenset(self.ids) != s.cur["ids"]:
-                raise ReplayMismatch("predict() on an unexpected model")
-            if s.cur_pred:
-                raise ReplayMismatch("child predict() called twice")
-            s.cur_pred = True
-            if not s.cur["asked"]:
-                raise ReplayMismatch(
-                    f"evaluation #{s.pos} (rank {s.cur['imp']} vs threshold rank {s.cur['thr']}): code asks the child "
-                    f"model for a partition, spec does not")
-            c1 = s.cur["c1"]
-            return np.array([0 if i in c1 else 1 for i in self.ids], dtype=int)
+            m = len(X)
+            if self.n_components != 2 or self.ids is None or m != len(self.ids):
+                return np.zeros(m, dtype=int)    # not a partition request of the split loop
+            s.calls["predict2"] += 1
+            return s.partition(self.ids)
 
+    FakeGaussianMixture.__name__ = "GaussianMixture"
     return FakeGaussianMixture
+
+
+def _js_state(v):
+    """JSON-able copy of a state component (the oracle is a function with set-valued keys)."""
+    if isinstance(v, dict) and any(isinstance(k, (frozenset, set, tuple)) for k in v):
+        return [[sorted(k), _js_state(x)] for k, x in sorted(v.items(), key=lambda t: sorted(t[0]))]
+    if isinstance(v, dict):
+        return {k: _js_state(x) for k, x in v.items()}
+    if isinstance(v, (frozenset, set)):
+        return sorted(v)
+    if isinstance(v, (tuple, list)):
+        return [_js_state(x) for x in v]
+    return v
+
+
+def state_oracle(st):
+    """cluster (frozenset of ids) -> answer, from the `oracle` variable of a terminal state."""
+    o = st.get("oracle") or {}
+    if isinstance(o, dict):
+        return {frozenset(k): v for k, v in o.items()}
+    if isinstance(o, (list, tuple)):     # JSON form of a replay file: [[ids, answer], ...]
+        return {frozenset(k): dict(v, c1=frozenset(v["c1"])) for k, v in o}
+    return {}
 
 
 _SPLIT_RE = re.compile(r"^Iteration (\d+): Split cluster (\d+) into (\d+) and (\d+)")
@@ -259,6 +272,7 @@ def replay_state(ck, np, cluster, st, variant, predicted_tbl, stats, history=Non
     (action Refit of HGMSplit: fit -> predict -> fit on other data -> predict on one object)."""
     n, mp, mi = st["n"], st["minPts"], st["maxIter"]
     log = list(st["log"])
+    oracle = state_oracle(st)
     # configuration variant
     d = 1 + (variant // 2) % 2
     normalize = bool(variant % 2)
@@ -271,8 +285,7 @@ def replay_state(ck, np, cluster, st, variant, predicted_tbl, stats, history=Non
     if d == 2:
         X[:, 1] = 0.5 * spacing * (np.arange(n) % 2)
     w = np.arange(1, n + 1, dtype=float)   # the weight of a point is its id: the fake decodes clusters from it
-    sc = Script(np, log, n, d, ctype, variant)
-    sc.cov_variant = "good"
+    sc = Script(np, oracle, n, d, ctype, variant)
     Fake = make_fake(sc)
     hgm = cluster.HierarchicalGaussianMixture(
         n_init=1, max_iterations=mi, min_points=None if use_none else mp, threshold_modifier=modifier,
@@ -289,8 +302,7 @@ def replay_state(ck, np, cluster, st, variant, predicted_tbl, stats, history=Non
         X0[:, 0] = spacing * np.arange(1, n0 + 1)
         if d == 2:
             X0[:, 1] = 0.5 * spacing * (np.arange(n0) % 2)
-        sc0 = Script(np, list(st0["log"]), n0, d, ctype, variant)
-        sc0.cov_variant = "good"
+        sc0 = Script(np, state_oracle(st0), n0, d, ctype, variant)
         sc0.hgm = hgm
         real0 = cluster.GaussianMixture
         cluster.GaussianMixture = make_fake(sc0)
@@ -312,11 +324,12 @@ def replay_state(ck, np, cluster, st, variant, predicted_tbl, stats, history=Non
             if st["K"] < st0["K"]:
                 stats["refits_K_decreased"] = stats.get("refits_K_decreased", 0) + 1
     sc.hgm = hgm
-    rep = {"state": {k: st[k] for k in ("n", "minPts", "maxIter", "clusters", "labels", "K", "log", "splits")},
+    keep = ("n", "minPts", "maxIter", "clusters", "labels", "K", "log", "splits", "oracle")
+    rep = {"state": {k: _js_state(st.get(k)) for k in keep},
            "variant": variant, "config": dict(d=d, normalize=normalize, covariance_type=ctype, threshold_modifier=modifier,
                                              min_points=None if use_none else mp, max_iterations=mi, spacing=spacing),
            "refit_of_object_previously_fitted_with_K": prev["K"] if reused else None,
-           "previous_behaviour_on_the_same_object": ({k: prev[k] for k in ("n", "minPts", "maxIter", "clusters", "labels", "K", "log", "splits")} if reused else None)}
+           "previous_behaviour_on_the_same_object": ({k: _js_state(prev.get(k)) for k in keep} if reused else None)}
     real = cluster.GaussianMixture
     out = io.StringIO()
     cluster.GaussianMixture = Fake
@@ -324,13 +337,6 @@ def replay_state(ck, np, cluster, st, variant, predicted_tbl, stats, history=Non
         try:
             with contextlib.redirect_stdout(out):
                 hgm.fit(X, w)
-            sc.close_entry()
-            sc.flush_pending()
-            if sc.pos != len(log):
-                raise ReplayMismatch(f"code made {sc.pos} candidate evaluations, spec {len(log)}")
-        except ReplayMismatch as ex:
-            ck.violation("replayB:split-sequence", f"scripted replay diverges from HGMSplit: {ex}", rep)
-            return
         except Exception as ex:
             ck.violation("replayB:fit-raised", f"fit raised {ex!r} on a scripted behaviour", rep)
             return
@@ -338,31 +344,31 @@ def replay_state(ck, np, cluster, st, variant, predicted_tbl, stats, history=Non
         K = st["K"]
         want_labels = [x for x in st["labels"]]
         clusters = st["clusters"]
-        # accepted splits as printed by the code (verbose) vs the spec's ghost `splits`
-        got_splits, stop_it = [], None
+        # accepted splits as printed by the code (verbose) vs the spec's ghost `splits` - only if the output can be parsed at
+        # all (the wording of the messages is not part of the property)
+        got_splits, parsed = [], False
         for ln in out.getvalue().splitlines():
             m = _SPLIT_RE.match(ln)
             if m:
                 got_splits.append((int(m.group(1)), int(m.group(2))))
-            m = _STOP_RE.match(ln)
-            if m:
-                stop_it = int(m.group(1))
+                parsed = True
+            elif _STOP_RE.match(ln):
+                parsed = True
         want_splits = [(s["it"], s["parent"] - 1) for s in st["splits"]]
+        for k_, v_ in sc.calls.items():
+            stats["calls_" + k_] = stats.get("calls_" + k_, 0) + v_
+        got_labels = [int(x) for x in np.asarray(hgm.labels_).ravel()]
         bad = None
         if hgm.n_clusters_ != K:
             bad = ("replayB:n-clusters", f"n_clusters_={hgm.n_clusters_}, spec K={K}")
         elif hgm.n_clusters_ > mi + 1:
             bad = ("replayB:cap", f"n_clusters_={hgm.n_clusters_} exceeds cap {mi + 1}")
-        elif list(map(int, hgm.labels_)) != want_labels:
-            bad = ("replayB:labels", f"labels_={list(map(int, hgm.labels_))}, spec {want_labels}")
-        elif got_splits != want_splits:
+        elif got_labels != want_labels:
+            bad = ("replayB:labels", f"labels_={got_labels}, spec {want_labels}")
+        elif parsed and got_splits != want_splits:
             bad = ("replayB:accepted-splits", f"accepted (iteration, parent) {got_splits}, spec {want_splits}")
-        elif (stop_it is not None) != (len(want_splits) < st["iter"]) or (stop_it is not None and stop_it != st["iter"]):
-            bad = ("replayB:stop", f"stop message iteration {stop_it}, spec iter={st['iter']} splits={len(want_splits)}")
-        else:
-            fin_want = [frozenset(c) for c in clusters if len(c) >= d]
-            if [frozenset(f) for f in sc.final_fits] != fin_want:
-                bad = ("replayB:final-clusters", f"final per-cluster fits on {sc.final_fits}, spec clusters {clusters}")
+        if parsed:
+            stats["splits_compared"] = stats.get("splits_compared", 0) + 1
         if bad:
             ck.violation(bad[0], bad[1], rep)
             return
@@ -381,7 +387,7 @@ def replay_state(ck, np, cluster, st, variant, predicted_tbl, stats, history=Non
         for cv in covs:
             if cv != "good":
                 # refit with degenerate component covariances: only the range of predictions is compared
-                sc2 = Script(np, log, n, d, ctype, variant)
+                sc2 = Script(np, oracle, n, d, ctype, variant)
                 sc2.cov_variant = cv
                 sc2.hgm = hgm
                 cluster.GaussianMixture = make_fake(sc2)
@@ -430,7 +436,8 @@ def replay_state(ck, np, cluster, st, variant, predicted_tbl, stats, history=Non
                 history[hkey] = st
         if len(ck.samples) < 2 and len(want_splits) >= 2:
             ck.sample({"binding": "B", "n": n, "min_points": mp, "max_iterations": mi, "config": rep["config"],
-                       "oracle_log": [{k: (sorted(v) if isinstance(v, frozenset) else v) for k, v in e.items()} for e in log],
+                       "oracle (cluster -> improvement rank, threshold rank, partition requested, points labelled 0)":
+                           [[sorted(c), e["imp"], e["thr"], e["known"], sorted(e["c1"])] for c, e in sorted(oracle.items(), key=lambda t: sorted(t[0]))],
                        "labels": want_labels, "K": K})
     finally:
         cluster.GaussianMixture = real
@@ -463,7 +470,8 @@ def _replay_chunk(args):
     blocks, start, nvariants, predicted, seed, tier = args
     np, cluster = _G["np"], _G["cluster"]
     col = Collector(seed, tier)
-    stats = {"replayed": 0, "with_split": 0, "predictions": 0, "centre_exact": 0, "refits": 0, "refits_K_decreased": 0}
+    stats = {"replayed": 0, "with_split": 0, "predictions": 0, "centre_exact": 0, "refits": 0, "refits_K_decreased": 0,
+             "reevaluated": 0, "lower_position_wins": 0}
     nontrivial = set()
     history = {}
     for j, blk in enumerate(blocks):
@@ -473,7 +481,49 @@ def _replay_chunk(args):
             replay_state(col, np, cluster, st, variant, predicted, stats, history)
         if st["splits"]:
             nontrivial.add(hash((st["n"], st["minPts"], st["maxIter"], _freeze_log(st["log"]))))
+        # antecedents that distinguish a remembering implementation from a re-evaluating one
+        seen = [e["ids"] for e in st["log"]]
+        if len(seen) != len(set(seen)):
+            stats["reevaluated"] += 1          # some cluster is consulted in more than one pass
+        if _lower_position_wins(st):
+            stats["lower_position_wins"] += 1
     return stats, nontrivial, col.violations, col.samples
+
+
+def _lower_position_wins(st):
+    """Two clusters qualify (improvement above threshold, both children large enough) in the same pass, the one at the LOWER
+    position is accepted and the other one - which slides one position down - is split in a later pass."""
+    mp = st["minPts"]
+    for sp in st["splits"]:
+        for e in st["log"]:
+            if e["it"] == sp["it"] and e["pos"] > sp["parent"] and e["imp"] >= 2 and e["imp"] > e["thr"]:
+                if any(s2["it"] > sp["it"] and s2["ids"] == e["ids"] for s2 in st["splits"]):
+                    return True
+    return False
+
+
+def _trace_lower_position_wins(t):
+    """Real fit (observed oracle + outcome): in some pass two clusters qualify, the lower-positioned one is split and the other
+    one is split in a later pass - read off the accepted splits and the observed oracle."""
+    if not t["hasSplits"] or len(t["splits"]) < 3:
+        return False
+    orc = {e["ids"]: e for e in t["orc"]}
+    clusters = [frozenset(range(1, t["n"] + 1))]
+    hist = []
+    for it, parent in t["splits"]:
+        if not 1 <= parent <= len(clusters) or clusters[parent - 1] not in orc or not orc[clusters[parent - 1]]["known"]:
+            return False
+        C = clusters[parent - 1]
+        hist.append((list(clusters), parent, C))
+        c1 = orc[C]["c1"]
+        clusters = clusters[:parent - 1] + clusters[parent:] + [c1, C - c1]
+    for a, (cl, parent, C) in enumerate(hist):
+        for pos in range(parent + 1, len(cl) + 1):
+            D = cl[pos - 1]
+            e = orc.get(D)
+            if e is not None and e["known"] and e["imp"] > e["thr"] and any(C2 == D for _, _, C2 in hist[a + 1:]):
+                return True
+    return False
 
 
 def _freeze_log(log):
@@ -662,13 +712,30 @@ def monitor_fit(np, gm, X, sample_weight):
     return bad
 
 
+def _tokens(np, X, w):
+    """One byte token per row: its coordinates and its sample weight (exact doubles)."""
+    X = np.ascontiguousarray(X, dtype=float)
+    w = np.ones(len(X)) if w is None else np.ascontiguousarray(w, dtype=float)
+    return [X[i].tobytes() + w[i].tobytes() for i in range(len(X))]
+
+
 def make_logging(np, real, rec):
+    """Logging subclass: every fit / bic / predict of every instance is recorded under the CONTENT of the data set the model
+    was fitted on (rows and sample weights), so the record does not depend on the order, number or grouping of the calls."""
     class LoggingGaussianMixture(real):
         def fit(self, X, sample_weight=None):
-            ent = {"k": self.n_components, "ctype": self.covariance_type, "n": int(len(X)), "bic": None, "pred": None,
-                   "monitor": None, "raised": None}
+            ent = {"k": self.n_components, "ctype": self.covariance_type, "n": int(len(X)), "monitor": None, "raised": None}
             rec["gm"].append(ent)
             self._ent = ent
+            try:
+                Xa = np.array(X, dtype=float)
+                wa = None if sample_weight is None else np.array(sample_weight, dtype=float)
+                toks = _tokens(np, Xa, wa)
+                ent["key"] = tuple(toks)
+                ent["X"], ent["w"] = Xa, (np.ones(len(Xa)) if wa is None else wa)
+                rec["fits"].setdefault((self.n_components, ent["key"]), {"bic": [], "part": [], "X": Xa, "w": ent["w"]})
+            except Exception:
+                ent["key"] = None
             try:
                 super().fit(X, sample_weight)
             except Exception as ex:
@@ -681,16 +748,122 @@ def make_logging(np, real, rec):
 
         def bic(self, X):
             v = super().bic(X)
-            self._ent["bic"] = float(v)
+            ent = getattr(self, "_ent", None)
+            if ent is not None and ent.get("key") is not None:
+                Xa = np.asarray(X, dtype=float)
+                if Xa.shape == ent["X"].shape and np.array_equal(Xa, ent["X"], equal_nan=True):   # scored on its own training set
+                    rec["fits"][(ent["k"], ent["key"])]["bic"].append(float(v))
+                else:
+                    rec["foreign_calls"] += 1
             return v
 
         def predict(self, X):
             lab = super().predict(X)
-            self._ent["pred"] = [int(x) for x in lab]
+            ent = getattr(self, "_ent", None)
+            if ent is not None and ent.get("key") is not None:
+                Xa = np.asarray(X, dtype=float)
+                if Xa.shape == ent["X"].shape and np.array_equal(Xa, ent["X"], equal_nan=True):
+                    rec["fits"][(ent["k"], ent["key"])]["part"].append(tuple(int(x) for x in lab))
+                else:
+                    rec["foreign_calls"] += 1
             return lab
 
     LoggingGaussianMixture.__name__ = "GaussianMixture"
     return LoggingGaussianMixture
+
+
+def _same(a, b):
+    return a == b or (isinstance(a, float) and isinstance(b, float) and math.isnan(a) and math.isnan(b))
+
+
+def observed_oracle(np, rec, n, X_in, w_in, normalize, modifier):
+    """The observed oracle of one real fit as a function of the cluster, from everything the logging subclass saw.
+    Returns (entries, info): entries = [{"ids": sorted 0-based ids, "imp": float, "thr": float, "part": labels by position or
+    None}] for every cluster reachable from the root through observed partitions whose improvement and threshold were observed
+    CONSISTENTLY; info counts what could not be bound."""
+    info = {"inconsistent_improvement": 0, "inconsistent_partition": 0, "inconsistent_threshold": 0, "root_observed": False,
+            "clusters_reachable": 0, "matched_by_multiset": 0}
+    wfull = np.ones(n) if w_in is None else np.asarray(w_in, dtype=float)
+    # the data as the code sees them (normalised or not): the observed data set with n rows, in index order
+    Xfull = None
+    ref = np.asarray(X_in, dtype=float)
+    if normalize:
+        lo, hi = ref.min(axis=0), ref.max(axis=0)
+        ref = (ref - lo) / (hi - lo + 1e-10)
+    for (k, key), f in rec["fits"].items():
+        if len(key) == n and np.array_equal(f["w"], wfull) and np.allclose(f["X"], ref, rtol=1e-9, atol=1e-12, equal_nan=True):
+            Xfull = f["X"]
+            break
+    if Xfull is None:
+        return [], info
+    info["root_observed"] = True
+    toks = _tokens(np, Xfull, wfull)
+    wtok = [wfull[i].tobytes() for i in range(n)]
+    by_multiset = {}
+    for (k, key), f in rec["fits"].items():
+        by_multiset.setdefault((k, tuple(sorted(key))), []).append((k, key))
+    tol = {}
+    for wkey, v in rec["tol"]:
+        tol.setdefault(wkey, []).append(v)
+    tol_ms = {}
+    for wkey, vs in tol.items():
+        tol_ms.setdefault(tuple(sorted(wkey)), []).extend(vs)
+
+    def lookup(k, ids):
+        key = tuple(toks[i] for i in ids)
+        f = rec["fits"].get((k, key))
+        if f is not None:
+            return f, key
+        alts = by_multiset.get((k, tuple(sorted(key))), [])
+        if len(alts) == 1:          # the same rows in another order (an implementation that reorders its index lists)
+            info["matched_by_multiset"] += 1
+            return rec["fits"][alts[0]], alts[0][1]
+        return None, None
+
+    entries, queue, seen = [], [tuple(range(n))], set()
+    while queue and len(seen) < 4 * n + 16:
+        ids = queue.pop(0)
+        if ids in seen or not ids:
+            continue
+        seen.add(ids)
+        f1, _ = lookup(1, ids)
+        f2, key2 = lookup(2, ids)
+        imp = None
+        if f1 is not None and f2 is not None and f1["bic"] and f2["bic"]:
+            if all(_same(v, f1["bic"][0]) for v in f1["bic"]) and all(_same(v, f2["bic"][0]) for v in f2["bic"]):
+                imp = f1["bic"][0] - f2["bic"][0]
+            else:
+                info["inconsistent_improvement"] += 1
+        part = None
+        if f2 is not None and f2["part"]:
+            if all(p_ == f2["part"][0] for p_ in f2["part"]):
+                # labels by row content (predict is a function of the row): robust against a different row order
+                xmap, okp = {}, True
+                xb = [f2["X"][j].tobytes() for j in range(len(key2))]
+                for j, lab in enumerate(f2["part"][0]):
+                    if xmap.setdefault(xb[j], lab) != lab:
+                        okp = False
+                if okp:
+                    part = [xmap[Xfull[i].tobytes()] for i in ids]
+                else:
+                    info["inconsistent_partition"] += 1
+            else:
+                info["inconsistent_partition"] += 1
+        wk = tuple(wtok[i] for i in ids)
+        tv = tol.get(wk) or tol_ms.get(tuple(sorted(wk)))
+        thr = None
+        if tv:
+            if all(_same(v, tv[0]) for v in tv):
+                thr = modifier * tv[0]
+            else:
+                info["inconsistent_threshold"] += 1
+        if part is not None:
+            queue.append(tuple(i for i, lab in zip(ids, part) if lab == 0))
+            queue.append(tuple(i for i, lab in zip(ids, part) if lab == 1))
+        if imp is not None and thr is not None:
+            entries.append({"ids": ids, "imp": imp, "thr": thr, "part": part})
+    info["clusters_reachable"] = len(seen)
+    return entries, info
 
 
 def well_posed(np, X, w, k):
@@ -765,23 +938,30 @@ def run_case(c, seed):
     cfg = {k: c[k] for k in ("i", "d", "n", "kind", "wkind", "scaled", "normalize", "modifier", "max_iterations", "min_points", "style", "ctype")}
     out = {"cfg": cfg, "violations": [], "monitor": [], "trace": None, "fits": 0, "wall": 0.0}
     rep = dict(cfg, seed=seed, X=X.tolist(), w=None if w is None else w.tolist())
-    rec = {"gm": [], "tol": []}
+    rec = {"gm": [], "tol": [], "fits": {}, "foreign_calls": 0}
     real = cluster.GaussianMixture
     t0 = time.time()
     hgm = cluster.HierarchicalGaussianMixture(n_init=1, max_iterations=c["max_iterations"], min_points=c["min_points"],
-                                              threshold_modifier=c["modifier"], covariance_type=c["ctype"], normalize=c["normalize"])
+                                              threshold_modifier=c["modifier"], covariance_type=c["ctype"], normalize=c["normalize"],
+                                              verbose=True)
     orig_tol = hgm._compute_bic_tolerance
 
     def tol_wrapper(nf, weights):
         v = orig_tol(nf, weights)
-        rec["tol"].append(float(v))
+        try:
+            wa = np.ascontiguousarray(weights, dtype=float)
+            rec["tol"].append((tuple(wa[i].tobytes() for i in range(len(wa))), float(v)))
+        except Exception:
+            pass
         return v
 
     hgm._compute_bic_tolerance = tol_wrapper
     cluster.GaussianMixture = make_logging(np, real, rec)
     rng_state = np.random.get_state()
+    text = io.StringIO()
+    pred = proba = Q = None
     try:
-        with warnings.catch_warnings():
+        with warnings.catch_warnings(), contextlib.redirect_stdout(text):
             warnings.simplefilter("ignore")
             old = np.seterr(all="ignore")
             try:
@@ -792,6 +972,7 @@ def run_case(c, seed):
                                               f"HierarchicalGaussianMixture.fit raised {ex!r} on {c['kind']} data (n={n}, d={d}, weights {c['wkind']}, "
                                               f"normalize={c['normalize']}, {c['ctype']})", rep))
                     hgm = None
+                fit_text = text.getvalue()
                 # ---- queries
                 if hgm is not None:
                     corners = np.array(list(itertools.product(*[(0.0, 1.0)] * d)))
@@ -819,34 +1000,9 @@ def run_case(c, seed):
                                    "well_posed": well_posed(np, Xi, wi, ent["k"]), "X": Xi, "w": wi, "case": cfg})
     if hgm is None:
         return out
-    # ---- projection to a trace
-    gm = rec["gm"]
-    evals, finals, j, bad_pattern = [], [], 0, None
-    while j < len(gm):
-        e = gm[j]
-        if e["k"] == 1 and e["bic"] is not None:
-            if j + 1 >= len(gm) or gm[j + 1]["k"] != 2 or gm[j + 1]["bic"] is None or gm[j + 1]["n"] != e["n"]:
-                bad_pattern = f"parent model #{j} not followed by a two-component model with bic on the same data"
-                break
-            ch = gm[j + 1]
-            evals.append({"size": e["n"], "imp": e["bic"] - ch["bic"], "asked": ch["pred"] is not None, "lab": tuple(ch["pred"] or ())})
-            j += 2
-        elif e["k"] == 1:
-            finals.append(e["n"])
-            j += 1
-        else:
-            bad_pattern = f"two-component model #{j} without a parent evaluation"
-            break
-    if bad_pattern is None and len(rec["tol"]) != len(evals):
-        bad_pattern = f"{len(rec['tol'])} threshold computations for {len(evals)} candidate evaluations"
-    if bad_pattern is None and any(f is not None for f in []):
-        pass
-    if bad_pattern:
-        out["violations"].append(("traceA:call-pattern", "mixture-model call pattern of fit is not that of the split loop: " + bad_pattern, rep))
-        return out
-    for ev, base in zip(evals, rec["tol"]):
-        ev["thr"] = hgm.threshold_modifier * base
-    vals = sorted({v for ev in evals for v in (ev["imp"], ev["thr"]) if not math.isnan(v)})
+    # ---- projection: the observed oracle (a function of the cluster) + the outcome of the fit
+    entries, info = observed_oracle(np, rec, n, X, w, c["normalize"], hgm.threshold_modifier)
+    vals = sorted({v for e in entries for v in (e["imp"], e["thr"]) if not math.isnan(v)})
     rank = {}
     r = 1
     for v in vals:
@@ -856,26 +1012,40 @@ def run_case(c, seed):
             rank[v] = r
             r += 1
     rk = lambda v: -1 if math.isnan(v) else rank[v]  # noqa: E731
-    blank = {"size": 0, "imp": 0, "thr": 0, "asked": False, "lab": (), "K": 0, "labels": (), "label": 0}
-    events = [dict(blank, ev="E", size=ev["size"], imp=rk(ev["imp"]), thr=rk(ev["thr"]), asked=ev["asked"], lab=ev["lab"]) for ev in evals]
-    labels = np.asarray(hgm.labels_)
-    events.append(dict(blank, ev="K", K=int(hgm.n_clusters_)))
-    events.append(dict(blank, ev="L", labels=tuple(int(x) for x in labels)))
-    ok_pred = pred is not None
-    if ok_pred:
+    orc = tuple({"ids": frozenset(i + 1 for i in e["ids"]), "imp": rk(e["imp"]), "thr": rk(e["thr"]), "known": e["part"] is not None,
+                 "c1": frozenset(i + 1 for i, lab in zip(e["ids"], e["part"] or ()) if lab == 0)} for e in entries)
+    # accepted splits as printed (only if the output can be parsed at all: the wording is not part of the property)
+    got_splits, parsed = [], False
+    for ln in fit_text.splitlines():
+        m = _SPLIT_RE.match(ln)
+        if m:
+            got_splits.append((int(m.group(1)), int(m.group(2)) + 1))
+            parsed = True
+        elif _STOP_RE.match(ln):
+            parsed = True
+    try:
+        K_code = int(hgm.n_clusters_)
+        labels = tuple(int(x) for x in np.asarray(hgm.labels_).ravel())
+    except Exception as ex:
+        out["violations"].append(("realfit:labels-malformed", f"labels_ / n_clusters_ unreadable after fit: {ex!r}", rep))
+        return out
+    preds = frozenset()
+    nq = 0
+    if pred is not None:
         if pred.shape != (len(Q),) or not np.issubdtype(pred.dtype, np.integer):
             out["violations"].append(("realfit:predict-shape", f"predict returned shape {pred.shape} dtype {pred.dtype}", rep))
-            ok_pred = False
-        elif proba.shape != (len(Q), int(hgm.n_clusters_)):
-            out["violations"].append(("realfit:predict-proba-shape", f"predict_proba shape {proba.shape}, n_clusters_={hgm.n_clusters_}", rep))
-    if ok_pred:
-        for v in sorted(set(int(x) for x in pred)):
-            events.append(dict(blank, ev="P", label=v))
+        else:
+            preds = frozenset(int(x) for x in pred)
+            nq = int(len(Q))
+            if proba.shape != (len(Q), K_code):
+                out["violations"].append(("realfit:predict-proba-shape", f"predict_proba shape {proba.shape}, n_clusters_={hgm.n_clusters_}", rep))
     mp_eff = c["min_points"] if c["min_points"] is not None else 2 * d
-    out["trace"] = {"n": n, "minPts": int(mp_eff), "maxIter": int(c["max_iterations"]), "ev": tuple(events)}
-    out["summary"] = {"evals": len(evals), "asked": sum(1 for e in evals if e["asked"]), "K": int(hgm.n_clusters_),
-                      "queries": int(len(Q)) if ok_pred else 0, "final_fits": finals,
-                      "raw": [(e["size"], e["imp"], e["thr"], e["asked"]) for e in evals][:12]}
+    out["trace"] = {"n": n, "minPts": int(mp_eff), "maxIter": int(c["max_iterations"]), "orc": orc, "K": K_code, "labels": labels,
+                    "preds": preds, "hasSplits": parsed, "splits": tuple(got_splits)}
+    out["summary"] = {"oracle_entries": len(orc), "partitions": sum(1 for e in orc if e["known"]), "K": K_code, "queries": nq,
+                      "gm_calls": {"fits_1": sum(1 for e in rec["gm"] if e["k"] == 1), "fits_2": sum(1 for e in rec["gm"] if e["k"] == 2)},
+                      "info": info, "splits_parsed": parsed,
+                      "raw": [(len(e["ids"]), e["imp"], e["thr"], e["part"] is not None) for e in entries][:12]}
     out["rep"] = rep
     return out
 
@@ -888,9 +1058,10 @@ CONSTANTS
   MinPtsSet = {1}
   MaxIterSet = {1}
   R = 1
+  LowKinds = {"thr"}
   Variant = "intended"
 """ + "".join(f"INVARIANT {i}\n" for i in TRACE_INV) + "CHECK_DEADLOCK FALSE\n"
-_ACC = re.compile(r'<<"ACCEPTED", (\d+)>>')
+_VERDICT = re.compile(r'^<<"VERDICT", (\d+), "([^"]+)">>', re.M)
 
 
 def trace_module(traces):
@@ -900,9 +1071,10 @@ def trace_module(traces):
             "=============================================================================\n")
 
 
-def validate_batch(traces, diagnose=True):
-    """Validate a batch of recorded traces with TLC.  Returns (verdicts, tlc totals): verdicts[i] is
-    ("accepted",) | ("invariant", name, error_trace) | ("rejected", event index, last matched state)."""
+def validate_batch(traces):
+    """Validate a batch of real fits with TLC: HGMTrace runs the specification with the observed oracle of each fit and
+    compares its outcome.  Returns (verdicts, tlc totals): verdicts[i] is ("accepted",) | ("rejected", clause) |
+    ("inconclusive", what) | ("invariant", name, error_trace).  Verdicts are total."""
     verdicts = [None] * len(traces)
     totals = {"states": 0, "transitions": 0, "runs": 0, "coverage": {}}
     alive = list(range(len(traces)))
@@ -926,24 +1098,23 @@ def validate_batch(traces, diagnose=True):
             res.cleanup()
             del alive[t - 1]
             continue
-        acc = {int(m.group(1)) for m in _ACC.finditer(res.stdout)}
+        if res.status != "ok":
+            raise RuntimeError("HGMTrace: unexpected TLC verdict\n" + res.stdout[-2000:])
+        got = {}
+        for m in _VERDICT.finditer(res.stdout):
+            got.setdefault(int(m.group(1)), set()).add(m.group(2))
         res.cleanup()
         for pos, i in enumerate(alive, start=1):
-            if pos in acc:
+            vs = got.get(pos, set())
+            if len(vs) != 1:
+                raise RuntimeError(f"trace validation: {len(vs)} verdicts for trace {pos} of the batch ({sorted(vs)})")
+            v = next(iter(vs))
+            if v == "accepted":
                 verdicts[i] = ("accepted",)
-        for pos, i in enumerate(alive, start=1):
-            if pos not in acc and not diagnose:
-                verdicts[i] = ("rejected", 0, {})
-            elif pos not in acc:
-                # diagnose: the single trace, every reached state dumped; the furthest position is the first unmatched event
-                r1 = tlc.run_tlc("HGMTrace", TRACE_CFG, dump=True, workers=1, timeout=600,
-                                 extra_modules={"HGMTraceData.tla": trace_module([traces[i]])})
-                best = None
-                for st in r1.states():
-                    if best is None or st["l"] > best["l"] or (st["l"] == best["l"] and st["pc"] in ("done", "final")):
-                        best = st
-                r1.cleanup()
-                verdicts[i] = ("rejected", best["l"], best)
+            elif v.startswith("inconclusive:"):
+                verdicts[i] = ("inconclusive", v.split(":", 1)[1])
+            else:
+                verdicts[i] = ("rejected", v)
         alive = []
     for i, v in enumerate(verdicts):
         if v is None:
@@ -1298,26 +1469,38 @@ def replication_part(ck, mp_pool=None):
 
 
 def corrupt_traces(trace):
-    """Binding self-test: single-field corruptions of an accepted trace that HGMTrace must reject."""
-    ev = list(trace["ev"])
+    """Binding self-test: single-field corruptions of an accepted trace and the verdict HGMTrace must give for each
+    (a set of admissible verdicts; "rejected" = any failing clause)."""
     out = []
-    iK = next(i for i, e in enumerate(ev) if e["ev"] == "K")
-    iL = iK + 1
-    lab = list(ev[iL]["labels"])
-    K = ev[iK]["K"]
-    e2 = list(ev); e2[iK] = dict(ev[iK], K=K + 1); out.append(("K+1", dict(trace, ev=tuple(e2))))
-    l2 = list(lab); l2[0] = (lab[0] + 1) % max(K, 2); e2 = list(ev); e2[iL] = dict(ev[iL], labels=tuple(l2)); out.append(("one label changed", dict(trace, ev=tuple(e2))))
-    e2 = list(ev) + [dict(ev[-1], ev="P", label=K)]; out.append(("predicted label = K", dict(trace, ev=tuple(e2))))
-    iE = [i for i, e in enumerate(ev) if e["ev"] == "E"]
-    if iE:
-        e2 = list(ev); del e2[iE[-1]]; out.append(("evaluation dropped", dict(trace, ev=tuple(e2))))
-        ia = [i for i in iE if ev[i]["asked"]]
-        if ia:
-            e2 = list(ev); e2[ia[0]] = dict(ev[ia[0]], asked=False, lab=()); out.append(("asked flag cleared", dict(trace, ev=tuple(e2))))
-            labs = list(ev[ia[0]]["lab"]); labs[0] = 1 - labs[0]
-            e2 = list(ev); e2[ia[0]] = dict(ev[ia[0]], lab=tuple(labs)); out.append(("child label flipped", dict(trace, ev=tuple(e2))))
-        e2 = list(ev); e2[iE[0]] = dict(ev[iE[0]], size=ev[iE[0]]["size"] + 1); out.append(("cluster size + 1", dict(trace, ev=tuple(e2))))
-    out.append(("cap lowered below K", dict(trace, maxIter=max(K - 2, 0)))) if K >= 2 else None
+    lab = list(trace["labels"])
+    K = trace["K"]
+    orc = list(trace["orc"])
+    REJ = {"n-clusters", "labels", "accepted-splits", "predict-range"}
+    out.append(("K+1", dict(trace, K=K + 1), {"n-clusters"}))
+    l2 = list(lab); l2[0] = (lab[0] + 1) % max(K, 2)
+    out.append(("one label changed", dict(trace, labels=tuple(l2)), {"labels"}))
+    out.append(("predicted label = K", dict(trace, preds=frozenset(trace["preds"]) | {K}), {"predict-range"}))
+    if K >= 2:
+        out.append(("cap lowered below K", dict(trace, maxIter=max(K - 2, 0)), REJ))
+        # the entry of the root: its partition decides everything below
+        ir = next((i for i, e in enumerate(orc) if len(e["ids"]) == trace["n"]), None)
+        if ir is not None and orc[ir]["known"]:
+            o2 = list(orc); del o2[ir]
+            out.append(("improvement of the root never observed", dict(trace, orc=tuple(o2)), {"inconclusive:improvement"}))
+            o2 = list(orc); o2[ir] = dict(orc[ir], known=False, c1=frozenset())
+            out.append(("partition of the root never observed", dict(trace, orc=tuple(o2)), {"inconclusive:partition"}))
+            o2 = list(orc); o2[ir] = dict(orc[ir], imp=orc[ir]["thr"])
+            out.append(("root improvement lowered to its threshold", dict(trace, orc=tuple(o2)), REJ))
+            c1 = set(orc[ir]["c1"]); other = sorted(set(orc[ir]["ids"]) - c1)
+            if other:
+                c1.add(other[0])
+                o2 = list(orc); o2[ir] = dict(orc[ir], c1=frozenset(c1))
+                out.append(("one point moved to the other child", dict(trace, orc=tuple(o2)), REJ | {"inconclusive:improvement", "inconclusive:partition"}))
+        if trace["hasSplits"] and trace["splits"]:
+            sp = list(trace["splits"]); sp[0] = (sp[0][0], sp[0][1] + 1)
+            out.append(("parent position of the first accepted split + 1", dict(trace, splits=tuple(sp)), {"accepted-splits"}))
+        o2 = list(lab); o2[0] = -1
+        out.append(("one point unlabelled (-1) and no oracle", dict(trace, labels=tuple(o2), orc=()), {"output-range"}))
     return out
 
 
@@ -1346,6 +1529,7 @@ def do_replay(ck, path):
             st["clusters"] = tuple(frozenset(c) for c in st["clusters"])
             st["log"] = tuple({k: (frozenset(v) if k in ("ids", "c1") else v) for k, v in e.items()} for e in st["log"])
             st["splits"] = tuple({k: (frozenset(v) if k in ("ids", "c1", "c2") else v) for k, v in e.items()} for e in st["splits"])
+            st["oracle"] = state_oracle(st)
             st["labels"] = tuple(st["labels"])
             st["iter"] = max([e["it"] for e in st["log"]] + [0])
             K = st["K"]
@@ -1353,6 +1537,7 @@ def do_replay(ck, path):
             tbl.update({(st["clusters"], "centre", k): {k} for k in range(K)})
             return st, tbl
         stats = {"replayed": 0, "with_split": 0, "predictions": 0, "centre_exact": 0}
+        n_before = ck.violations
         history = None
         pv = rp.get("previous_behaviour_on_the_same_object")
         if pv:   # the behaviour was replayed into an object already fitted and queried on an earlier behaviour's data
@@ -1360,6 +1545,7 @@ def do_replay(ck, path):
             history = {(st0["minPts"], st0["maxIter"]): st0}
         st, tbl = thaw(rp["state"])
         replay_state(ck, np, cluster, st, rp["variant"], tbl, stats, history, forced_reuse=bool(pv))
+        print("scripted replay:", "reproduced" if ck.violations > n_before else "no violation")
     elif "trace" in rp and "X" in rp:   # binding A: re-run the real fit, re-validate its trace
         c = {k: rp[k] for k in ("i", "d", "n", "kind", "wkind", "scaled", "normalize", "modifier", "max_iterations", "min_points", "style", "ctype")}
         c["X"] = np.array(rp["X"], dtype=float)
@@ -1370,7 +1556,7 @@ def do_replay(ck, path):
         if o["trace"] is not None:
             verdicts, _ = validate_batch([o["trace"]])
             print("TLC verdict on the re-recorded trace:", verdicts[0][0], verdicts[0][1] if len(verdicts[0]) > 1 else "")
-            if verdicts[0][0] != "accepted":
+            if verdicts[0][0] in ("rejected", "invariant"):
                 ck.violation(rec["key"], rec["what"], rp)
     elif "covariance_type" in rp and "k" in rp:
         X = np.array(rp["X"], dtype=float)
@@ -1393,11 +1579,6 @@ def do_replay(ck, path):
             ck.violation(rec["key"], f"{ex!r}", rp)
     ck.args.no_evidence = True
     ck.finish({"states": 0, "transitions": 0, "traces_validated_against_impl": 1})
-
-
-def json_trace(t):
-    return {"n": t["n"], "minPts": t["minPts"], "maxIter": t["maxIter"],
-            "ev": tuple(dict(e, lab=tuple(e["lab"]), labels=tuple(e["labels"])) for e in t["ev"])}
 
 
 def main():
@@ -1426,7 +1607,8 @@ def main():
     if ck.violations == 0 and (rep_ev["pairs_coupled"] == 0 or rep_ev["multi_iteration_pairs"] == 0):
         raise RuntimeError("vacuity: no weighted/replicated pair with several EM iterations was validated")
 
-    stats = {"replayed": 0, "with_split": 0, "predictions": 0, "centre_exact": 0, "refits": 0, "refits_K_decreased": 0}
+    stats = {"replayed": 0, "with_split": 0, "predictions": 0, "centre_exact": 0, "refits": 0, "refits_K_decreased": 0,
+             "reevaluated": 0, "lower_position_wins": 0}
     nontrivial = set()
     gen_info = []
     states = transitions = 0
@@ -1438,8 +1620,8 @@ def main():
                          {"trace": info.pop("error_trace"), "constants": info["constants"]})
         for a in asyncs:
             st, nt, viols, samples = a.get()
-            for k in stats:
-                stats[k] += st[k]
+            for k in st:
+                stats[k] = stats.get(k, 0) + st[k]
             nontrivial |= nt
             for key, what, rep in viols:
                 ck.violation(key, what, rep)
@@ -1465,6 +1647,9 @@ def main():
             raise RuntimeError(f"vacuity: action {a} never taken in the generator runs")
     if not ck.violations and stats["refits_K_decreased"] == 0:
         raise RuntimeError("vacuity: no behaviour was replayed into an object previously fitted with MORE clusters")
+    if not ck.violations and (stats["reevaluated"] == 0 or stats["lower_position_wins"] == 0):
+        raise RuntimeError("vacuity: no replayed behaviour consults a cluster in two passes / lets the lower-positioned of two qualifying "
+                           f"clusters win ({stats['reevaluated']}, {stats['lower_position_wins']})")
 
     # ---- binding A: collect the real fits, validate their traces with TLC (HGMTrace), report monitors
     real = real_async.get()
@@ -1474,8 +1659,11 @@ def main():
     mon = {"fits_monitored": 0, "fits_with_failure": 0}
     mon_keys = {}
     mon_checked = []
-    real_summ = {"fits_run": len(real), "gm_fits": 0, "with_split": 0, "evaluations": 0, "asked": 0, "queries": 0,
-                 "max_K": 0, "wall_s_sum": 0.0, "by_kind": {}, "by_wkind": {}}
+    real_summ = {"fits_run": len(real), "gm_fits": 0, "with_split": 0, "oracle_entries": 0, "partitions": 0, "queries": 0,
+                 "max_K": 0, "wall_s_sum": 0.0, "by_kind": {}, "by_wkind": {}, "splits_parsed_from_verbose_output": 0,
+                 "two_level_lower_position_wins": 0,
+                 "info:observed_inconsistent (same data set, different answers)": {"improvement": 0, "partition": 0, "threshold": 0},
+                 "info:root_data_set_not_observed": 0, "info:matched_by_row_multiset": 0}
     for o in real:
         for key, what, rep in o["violations"]:
             ck.violation(key, what, rep)
@@ -1525,8 +1713,9 @@ def main():
     bsz = 60
     batches = [list(range(a, min(a + bsz, len(traces)))) for a in range(0, len(traces), bsz)]
     vfuts = [tpool.submit(validate_batch, [traces[i] for i in b]) for b in batches]
-    accepted = 0
+    accepted = inconclusive = 0
     accepted_idx = []
+    verdict_counts = {}
     tstates = ttrans = truns = 0
     tcov = {}
     for b, f in zip(batches, vfuts):
@@ -1540,61 +1729,95 @@ def main():
         for i, v in zip(b, verdicts):
             o = owners[i]
             s = o["summary"]
+            inf = s["info"]
+            inc = real_summ["info:observed_inconsistent (same data set, different answers)"]
+            inc["improvement"] += inf["inconsistent_improvement"]
+            inc["partition"] += inf["inconsistent_partition"]
+            inc["threshold"] += inf["inconsistent_threshold"]
+            real_summ["info:root_data_set_not_observed"] += 0 if inf["root_observed"] else 1
+            real_summ["info:matched_by_row_multiset"] += inf["matched_by_multiset"]
+            verdict_counts[v[0] if v[0] != "inconclusive" else "inconclusive:" + v[1]] = \
+                verdict_counts.get(v[0] if v[0] != "inconclusive" else "inconclusive:" + v[1], 0) + 1
             if v[0] == "accepted":
                 accepted += 1
                 accepted_idx.append(i)
-                real_summ["evaluations"] += s["evals"]
-                real_summ["asked"] += s["asked"]
+                real_summ["oracle_entries"] += s["oracle_entries"]
+                real_summ["partitions"] += s["partitions"]
                 real_summ["queries"] += s["queries"]
                 real_summ["max_K"] = max(real_summ["max_K"], s["K"])
+                real_summ["splits_parsed_from_verbose_output"] += 1 if s["splits_parsed"] else 0
                 if s["K"] > 1:
                     real_summ["with_split"] += 1
+                if _trace_lower_position_wins(traces[i]):
+                    real_summ["two_level_lower_position_wins"] += 1
                 real_summ["by_kind"][o["cfg"]["kind"]] = real_summ["by_kind"].get(o["cfg"]["kind"], 0) + 1
                 real_summ["by_wkind"][o["cfg"]["wkind"]] = real_summ["by_wkind"].get(o["cfg"]["wkind"], 0) + 1
                 if s["K"] > 1 and sum(1 for x in ck.samples if x.get("binding") == "A") < 2:
-                    ck.sample({"binding": "A", "case": o["cfg"], "K": s["K"], "evaluations (size, improvement, threshold, asked)": s["raw"]}, limit=6)
+                    ck.sample({"binding": "A", "case": o["cfg"], "K": s["K"],
+                               "observed oracle (cluster size, improvement, threshold, partition observed)": s["raw"]}, limit=6)
+            elif v[0] == "inconclusive":
+                inconclusive += 1          # the specification needs an oracle value the code never computed: cannot be bound
             elif v[0] == "invariant":
                 ck.violation("traceA:invariant:" + v[1], f"HGMSplit invariant {v[1]} violated on the trace of a real fit ({o['cfg']})",
-                             dict(o["rep"], trace=traces[i], error_trace=v[2]))
+                             dict(o["rep"], trace=_js_state(traces[i]), error_trace=v[2]))
             else:
-                l = v[1]
-                evs = traces[i]["ev"]
-                e = evs[l - 1] if l <= len(evs) else {"ev": "end"}
-                key = {"E": "traceA:split-sequence", "K": "traceA:n-clusters", "L": "traceA:labels", "P": "traceA:predict-range"}.get(e["ev"], "traceA:incomplete")
-                ck.violation(key, f"trace of a real fit rejected by HGMTrace at event {l} {str(e)[:240]}: spec state pc={v[2].get('pc')} K={v[2].get('K')} "
-                                  f"clusters={[len(c) for c in v[2].get('clusters', ())]} cap={traces[i]['maxIter'] + 1} minPts={traces[i]['minPts']} ({o['cfg']})",
-                             dict(o["rep"], trace=traces[i], first_unmatched_event=l, last_matched_state=v[2]))
-    # ---- binding self-test: corrupted copies of accepted traces must be rejected by TLC
+                t = traces[i]
+                sizes = sorted((t["labels"].count(k_) for k_ in set(t["labels"])), reverse=True)
+                ck.violation("traceA:" + v[1],
+                             f"outcome of a real fit differs from HGMSplit run with the fit's own observed oracle: clause {v[1]} "
+                             f"(code: n_clusters_={t['K']}, label counts {sizes[:8]}, labels outside [0,K): "
+                             f"{sum(1 for x in t['labels'] if not 0 <= x < t['K'])}, accepted splits {list(t['splits'])[:6] if t['hasSplits'] else 'not parsed'}, "
+                             f"predicted labels {sorted(t['preds'])[:8]}; cap={t['maxIter'] + 1} minPts={t['minPts']}; {len(t['orc'])} clusters in the observed "
+                             f"oracle) ({o['cfg']})",
+                             dict(o["rep"], trace=_js_state(t), clause=v[1]))
+    # ---- binding self-test: corrupted copies of accepted traces must get the expected verdict from TLC
     donors = [traces[i] for i in accepted_idx if owners[i]["summary"]["K"] > 1][:3] + [traces[i] for i in accepted_idx[:1]]
-    corrupted = [(what, t) for d_ in donors for what, t in corrupt_traces(d_)]
+    corrupted = [(what, t, want) for d_ in donors for what, t, want in corrupt_traces(d_)]
     binding_rejected = 0
     if corrupted:
-        verdicts, _ = validate_batch([t for _, t in corrupted], diagnose=False)
-        binding_rejected = sum(1 for v in verdicts if v[0] != "accepted")
-        missed = [what for (what, _), v in zip(corrupted, verdicts) if v[0] == "accepted"]
+        verdicts, _ = validate_batch([t for _, t, _ in corrupted])
+        missed = []
+        for (what, _, want), v in zip(corrupted, verdicts):
+            name = {"accepted": "accepted", "rejected": v[-1], "inconclusive": "inconclusive:" + str(v[-1]), "invariant": "invariant"}[v[0]]
+            if name in want:
+                binding_rejected += 1
+            else:
+                missed.append((what, name))
         if missed:
-            raise RuntimeError(f"binding self-test: corrupted traces accepted by HGMTrace: {missed}")
-    for a in ["Internal", "TraceEval", "TraceK", "TraceLabels", "TracePredict", "TraceAccept"]:
+            raise RuntimeError(f"binding self-test: corrupted traces not judged as expected by HGMTrace: {missed}")
+    for a in ["Internal", "TraceEval", "TraceJudge", "TracePredict", "TraceAccept"]:
         if traces and tcov.get(a, (0, 0))[1] == 0 and ck.violations == 0 and not ck.known_hits:
             raise RuntimeError(f"vacuity: trace action {a} never taken")
     if ck.violations == 0 and not ck.known_hits and real_summ["with_split"] == 0:
         raise RuntimeError("vacuity: no real fit accepted a split")
+    if ck.violations == 0 and not ck.known_hits and real_summ["two_level_lower_position_wins"] == 0:
+        raise RuntimeError("vacuity: no real fit in which two clusters qualify in one pass and the lower-positioned one is split first")
+    if ck.violations == 0 and not ck.known_hits and inconclusive > max(2, len(traces) // 10):
+        raise RuntimeError(f"vacuity: {inconclusive} of {len(traces)} real fits could not be bound (observed oracle incomplete)")
 
     ck.assumptions += [
         "the EM fits / BIC values / child predictions of GaussianMixture are an arbitrary oracle in the model "
         "(the algebraic mixture invariants of the property's first sentence are MONITORED, not decided; weight == replication is decided relationally by GMMPair.tla for the mixture model only)",
         "scripted replays use integer sample weights 1..n (exact doubles) as point identities",
-        "child clusters keep their indices in increasing order (true by construction of the list comprehensions), so child labels "
-        "are bound to points by position in the sorted cluster",
+        "the mixture fits inside HierarchicalGaussianMixture.fit are deterministic functions of the data set they are given (seeded "
+        "identically), so the oracle is a function of the cluster; observed answers that contradict this are reported as information "
+        "and the fit is not bound",
+        "binding A identifies a cluster with the content (rows, weights) of the data set handed to the mixture model; rows are matched "
+        "in index order, or as a multiset if the implementation reorders them",
     ]
     cov = {
         "states": states + tstates + rep_ev["states"],
         "transitions": transitions + ttrans + rep_ev["transitions"],
         "traces_validated_against_impl": stats["replayed"] + accepted + rep_ev["pairs_coupled"],
-        "evaluations": stats["replayed"] + stats["predictions"] + real_summ["evaluations"] + real_summ["queries"],
+        "evaluations": stats["replayed"] + stats["predictions"] + real_summ["oracle_entries"] + real_summ["queries"],
         "distinct_nontrivial": len(nontrivial) + real_summ["with_split"],
-        "rule": "non-trivial = a behaviour in which at least one split is accepted: distinct oracle logs of the exhaustive HGMSplit runs "
-                "(every terminal state replayed into the real fit/predict/predict_proba) + real fits with K > 1 whose trace TLC accepted",
+        "rule": "non-trivial = a behaviour in which at least one split is accepted: distinct behaviours of the exhaustive HGMSplit runs "
+                "(oracle = function of the cluster by construction; every terminal state replayed into the real fit/predict/predict_proba "
+                "through a content-addressed, order-free fake mixture; compared: n_clusters_, labels_, accepted splits if the verbose output "
+                "parses, predictions) + real fits with K > 1 whose outcome equals that of HGMSplit run by TLC with the fit's observed oracle",
+        "bindingB_oracle": "restricted generator: the `oracle` state variable is a partial function cluster -> answer, extended on first "
+                           "consultation and reused afterwards (invariant OracleIsFunction); no behaviour has an inconsistent oracle, none is dropped",
+        "bindingB_not_compared": "call order, call counts, which instances get bic()/predict(), final per-cluster fits, stop message",
         "exhaustive": True,
         "generator_runs": gen_info,
         "seeded_spec_variants_refuted": refuted,
@@ -1604,13 +1827,23 @@ def main():
         "bindingB_refits_with_fewer_clusters_than_before": stats["refits_K_decreased"],
         "bindingB_predictions_compared": stats["predictions"],
         "bindingB_centre_queries_compared_exactly": stats["centre_exact"],
+        "bindingB_centre_queries_exact_ties": "none possible: the scripted centres are distinct data points >= 12.5 standard deviations apart "
+                                              "(covariance 1e-4 I at spacing >= 0.125), every other query is compared for its range only",
+        "bindingB_behaviours_consulting_a_cluster_in_two_passes": stats["reevaluated"],
+        "bindingB_behaviours_lower_position_wins_then_other_split": stats["lower_position_wins"],
+        "bindingB_replays_with_parsed_split_messages": stats.get("splits_compared", 0),
+        "bindingB_fake_calls": {k[6:]: v for k, v in sorted(stats.items()) if k.startswith("calls_")},
         "bindingA_real_fits": real_summ,
         "bindingA_traces_accepted_by_TLC": accepted,
         "bindingA_traces_submitted": len(traces),
+        "bindingA_traces_inconclusive (specification needs an oracle value the code never computed)": inconclusive,
+        "bindingA_verdicts": verdict_counts,
         "binding_mutations_rejected": binding_rejected,
         "binding_mutations_tried": len(corrupted),
         "replication_pairs(GMMPair.tla)": rep_ev,
-        "bindingA_validation": "TLA+ trace spec HGMTrace.tla (conjoins the HGMSplit actions), batched through TLC",
+        "bindingA_validation": "TLA+ trace spec HGMTrace.tla (conjoins the HGMSplit actions): the specification is run deterministically "
+                               "with the observed oracle (function of the cluster) of each real fit and its K / labelling / accepted splits / "
+                               "prediction range are compared with the fit's outcome; batched through TLC; verdicts total",
         "bindingA_tlc": {"runs": truns, "states": tstates, "transitions": ttrans, "coverage": {k: list(v) for k, v in tcov.items()}},
         "tlc_coverage": {k: list(v) for k, v in cov_total.items()},
         "monitor:scope": "MONITORING of the numerical EM routine (property sentence 1), not decided by the model: predicates logged for every "
